@@ -296,7 +296,8 @@ def worlds(pl):
         ps = list(itertools.permutations(range(n))) if perms == "all" else perms
         for styles in itertools.product(menu, repeat=n):
             for perm in ps:
-                yield (styles, tuple(10 * p for p in perm))  # the smallest sample number is 0
+                # the smallest sample number is 0; every other world uses huge numbers that differ by 1 part in 10^18
+                yield (styles, tuple(10 * p for p in perm) if (len(styles[0]) + perm[0]) % 2 == 0 else tuple(10 ** 18 + p for p in perm))
 
 
 def run_shard(sh, rec):
